@@ -22,7 +22,8 @@ import (
 )
 
 func normaliseAST(c *Ctx) int {
-	n := 0
+	n := inlineEmbeddedHelpers(c)
+	c.NInlined = n
 	for _, p := range c.All {
 		info := p.TypesInfo
 		negate := func(cond ast.Expr) ast.Expr {
